@@ -751,6 +751,9 @@ def run(ctx) -> None:
     ctx.rule("C08.R11-new-platform-has-every-scope", "a mutator that creates the variables of a platform (variables[platform] = {..}) leaves it with "
              "both scopes the readers require ('global' and 'stages'): otherwise every resolved query on the new platform raises "
              "FlowIRInconsistency while the same description answers when it is loaded from scratch")
+    ctx.rule("C08.R12-no-untracked-memo", "self._cache is the only store of values derived from the description: an instance attribute of FlowIRConcrete "
+             "that a method other than __init__ fills from the description is rebound by every method that writes into self._flowir / "
+             "self._component_dictionary")
     ctx.rule("C08.R6-readset", "regions read by get_component_configuration are exactly the regions treated as relevant")
     ctx.assume("aliases stored outside the analysed function (object attributes, containers passed to other "
                "modules) are not tracked; such escapes are listed under coverage.information")
@@ -787,6 +790,101 @@ def run(ctx) -> None:
                "inconsistency, so after this update every resolved query on the new platform raises although a fresh load of the same "
                "description answers" % (mname, " and ".join(missing)), construct="%s: variables[platform] created with both scopes" % mname)
     ctx.floor("C08.R11-new-platform-has-every-scope", n11, 2, "mutators that create the variables of a platform")
+
+    # ---- R12: no second, untracked memo ------------------------------------------------------------
+    # The cache analysis above knows ONE derived store, self._cache.  Any other attribute of FlowIRConcrete that a method other than
+    # __init__ fills with a value computed from the description (self._flowir, a method or property of self) is a second memo; it is
+    # sound only if every method that writes into self._flowir also rebinds it.
+    def rooted_at_flowir(e: ast.AST) -> bool:
+        while isinstance(e, (ast.Subscript, ast.Attribute, ast.Call)):
+            if isinstance(e, ast.Attribute) and isinstance(e.value, ast.Name) and e.value.id == "self" and e.attr in ("_flowir", "_component_dictionary"):
+                return True
+            e = e.func if isinstance(e, ast.Call) else e.value
+        return False
+    MUTATORS = ("update", "pop", "append", "clear", "setdefault", "remove", "insert", "extend", "popitem")
+    writers = {}
+    for mname, f in an.methods.items():
+        for x in ast.walk(f):
+            tgts = x.targets if isinstance(x, (ast.Assign, ast.Delete)) else [x.target] if isinstance(x, ast.AugAssign) else []
+            if any(isinstance(t, ast.Subscript) and rooted_at_flowir(t) for t in tgts) or (
+                    isinstance(x, ast.Call) and last_attr(x) in MUTATORS and rooted_at_flowir(x.func.value)):
+                writers[mname] = f
+                break
+    attr_sites = {}
+    for mname, f in an.methods.items():
+        for x in ast.walk(f):
+            if isinstance(x, (ast.Assign, ast.AugAssign)):
+                for t in (x.targets if isinstance(x, ast.Assign) else [x.target]):
+                    if isinstance(t, ast.Attribute) and isinstance(t.value, ast.Name) and t.value.id == "self":
+                        attr_sites.setdefault(t.attr, []).append((mname, x))
+    ctx.floor("C08.R12-no-untracked-memo", len(attr_sites), 4, "instance attributes of FlowIRConcrete")
+    ctx.floor("C08.R12-no-untracked-memo", len(writers), 10, "methods of FlowIRConcrete that write into the description")
+    for attr, sites in sorted(attr_sites.items()):
+        derived = [(mn, x) for (mn, x) in sites if mn != "__init__" and x.value is not None and any(
+            (isinstance(y, ast.Attribute) and isinstance(y.value, ast.Name) and y.value.id == "self" and y.attr != attr)
+            or (isinstance(y, ast.Call) and "_flowir" in source.src(y)) for y in ast.walk(x.value))]
+        if not derived:
+            ctx.ob("C08.R12-no-untracked-memo", sites[0][1], True, "self.%s is bound in __init__ or from arguments only" % attr, trivial=True,
+                   construct="self.%s" % attr)
+            continue
+        resetting = {mn for (mn, x) in sites}
+        # top-level fields the memo is computed from (read from the function that computes it) and fields each writer touches:
+        # a writer matters when it writes a field the memo reads (or when either side cannot be determined)
+        memo_fields: Optional[Set[str]] = set()
+        for (mn, x) in derived:
+            for c in [y for y in ast.walk(x.value) if isinstance(y, ast.Call)]:
+                callee = None
+                nm_ = last_attr(c) or (c.func.id if isinstance(c.func, ast.Name) else None)
+                for q_, f_ in an.mod.functions.items():
+                    if q_.split(".")[-1] == nm_ and q_.split(".")[0] in ("FlowIR", "FlowIRConcrete"):
+                        callee = f_
+                if callee is None:
+                    memo_fields = None
+                    break
+                got = {y.attr for y in ast.walk(callee) if isinstance(y, ast.Attribute) and y.attr.startswith("Field")}
+                if not got:
+                    memo_fields = None
+                    break
+                memo_fields |= got
+            if memo_fields is None:
+                break
+
+        def writer_fields(f) -> Optional[Set[str]]:
+            out: Set[str] = set()
+            for x in ast.walk(f):
+                tgts = x.targets if isinstance(x, (ast.Assign, ast.Delete)) else [x.target] if isinstance(x, ast.AugAssign) else []
+                exprs = [t for t in tgts if isinstance(t, ast.Subscript) and rooted_at_flowir(t)]
+                if isinstance(x, ast.Call) and last_attr(x) in MUTATORS and rooted_at_flowir(x.func.value):
+                    exprs.append(x.func.value)
+                for e in exprs:
+                    chain = e
+                    first = None
+                    while isinstance(chain, (ast.Subscript, ast.Attribute, ast.Call)):
+                        if isinstance(chain, ast.Subscript) and isinstance(chain.value, ast.Attribute) and isinstance(chain.value.value, ast.Name) \
+                                and chain.value.value.id == "self" and chain.value.attr == "_flowir":
+                            first = chain.slice
+                        chain = chain.func if isinstance(chain, ast.Call) else chain.value
+                    if isinstance(first, ast.Attribute) and first.attr.startswith("Field"):
+                        out.add(first.attr)
+                    elif "_component_dictionary" in source.src(e) and "_flowir" not in source.src(e):
+                        out.add("FieldComponents")        # the index of the components
+                    else:
+                        return None
+            return out
+        stale = []
+        for w in sorted(writers):
+            if w in resetting or w == "__init__":
+                continue
+            wf = writer_fields(writers[w])
+            if memo_fields is None or wf is None or (wf & memo_fields):
+                stale.append(w)
+        ctx.ob("C08.R12-no-untracked-memo", derived[0][1], not stale,
+               "self.%s is derived from the description and rebound by every method that writes into it" % attr if not stale else
+               "self.%s is filled in %s from the description (a second memo next to self._cache) but is not reset by %s, which write into the "
+               "description: after such a write the live object keeps answering from the old value (e.g. 'unknown platform' for a platform "
+               "that set_platform_stage_variable just created) while an object built from scratch from the same description answers"
+               % (attr, derived[0][0], ", ".join(stale[:6]) + (" .." if len(stale) > 6 else "")),
+               construct="self.%s <- reset by every writer of the description" % attr)
 
     # ---- R10: clear-then-fill ------------------------------------------------------------
     n10 = 0
